@@ -3,6 +3,7 @@ From Coq Require Import String List.
 From TS Require Import Model.Str Model.Outcome Model.Unicode Model.Syntax Model.Types Model.Lang.Common Model.Lang.Decl Model.Lang.TypeScript Model.Lang.Kotlin Model.Lang.Scala Model.Lang.Swift Model.Lang.Go Model.Lang.Python Spec.C05Spec.
 From TS Require Proofs.C05 Proofs.C05_Back Proofs.C05_Sites Proofs.GoAcronyms Proofs.C05_GoAcr Spec.C02Spec.
 Import ListNotations.
+From TS Require Proofs.C12Multi Proofs.C12MultiTS Proofs.C12MultiSwift Proofs.C12MultiGo Proofs.MultiSameSites.
 
 (* ---- syn type -> IR ---- *)
 (* Every syn type built from supported pieces (any depth, any mix of Vec / Option / HashMap / arrays / slices /
@@ -564,3 +565,80 @@ Theorem C05_site_go_struct_acronyms_nonvacuous :
   [XOpt (XSeq (XName (lit "UserID") [])); XMap (XName (lit "string") []) (XName (lit "URL") []); XName (lit "TID") []; XRaw (lit "ApiURL")].
 Proof. exact Proofs.C05_GoAcr.C05_site_go_struct_acr_nonvacuous. Qed.
 Print Assumptions C05_site_go_struct_acronyms_nonvacuous.
+
+(* =============================================================================================
+   FOLDER (multi-file) MODE, stateful back ends.  Walking the (item, declaration) pairs of a crate's folder-mode file
+   generated from ANY state (Proofs.C12Multi*.<l>_multi_decls; Props/C01.v C01_multi_decls_items_<l>): the struct,
+   alias and const use sites carry the translation c05_erase of the IR type under the generics of the enclosing item -
+   the conclusions of C05_site_<l>_struct / _alias / _const under their hypotheses, none about the state.  (Kotlin and
+   Scala: the single-file site theorems speak about kt_struct_decl / sc_decl_of .., which folder mode calls unchanged.) *)
+Theorem C05_multi_site_typescript :
+  forall uc cfg st pd ds st',
+  Proofs.C12MultiTS.ts_multi_decls uc cfg st pd = Ok (ds, st') ->
+  exists items, Model.Topsort.topsort (items_of pd) = Ok items /\
+    Forall2 (fun it d =>
+      (forall s, it = ItStruct s ->
+         Forall (Proofs.C05_Sites.c05_field_ok TypeScript (Proofs.C05.c05_ts_cfg cfg) (sgenerics s)) (sfields s) ->
+         exists docs name ms, d = TSInterface docs name (sgenerics s) ms /\
+           map tm_type ms = map (fun f => c05_erase TypeScript (Proofs.C05.c05_ts_cfg cfg) (sgenerics s) (fty f)) (sfields s)) /\
+      (forall a, it = ItAlias a ->
+         dom_C05 (atype a) = true -> known_C05 TypeScript (Proofs.C05.c05_ts_cfg cfg) (agenerics a) (atype a) = None ->
+         exists docs name u n, d = TSAlias docs name (agenerics a) (c05_erase TypeScript (Proofs.C05.c05_ts_cfg cfg) (agenerics a) (atype a)) u n) /\
+      (forall k, it = ItConst k ->
+         dom_C05 (ctype k) = true -> known_C05 TypeScript (Proofs.C05.c05_ts_cfg cfg) [] (ctype k) = None ->
+         exists name v, d = TSConst name (c05_erase TypeScript (Proofs.C05.c05_ts_cfg cfg) [] (ctype k)) v)) items ds.
+Proof. exact Proofs.MultiSameSites.c05_multi_sites_ts. Qed.
+Print Assumptions C05_multi_site_typescript.
+
+Theorem C05_multi_site_swift :
+  forall uc cfg st pd ds st',
+  Proofs.C12MultiSwift.sw_multi_decls uc cfg st pd = Ok (ds, st') ->
+  exists items, Model.Topsort.topsort (items_of pd) = Ok items /\
+    Forall2 (fun it d =>
+      (forall rs, it = ItStruct rs ->
+         Forall (Proofs.C05_Sites.c05_field_ok Swift (Proofs.C05_Back.c05_sw_cfg cfg) (sgenerics rs)) (sfields rs) ->
+         exists sd, d = SWStruct sd /\
+           map swm_type (sws_members sd) = map (fun f => c05_erase Swift (Proofs.C05_Back.c05_sw_cfg cfg) (sgenerics rs) (fty f)) (sfields rs) /\
+           map swm_init_type (sws_members sd) = map (fun f => c05_erase Swift (Proofs.C05_Back.c05_sw_cfg cfg) (sgenerics rs) (fty f)) (sfields rs)) /\
+      (forall a, it = ItAlias a ->
+         dom_C05 (atype a) = true -> known_C05 Swift (Proofs.C05_Back.c05_sw_cfg cfg) (agenerics a) (atype a) = None ->
+         exists docs name esc, d = SWAlias docs name esc (agenerics a) (c05_erase Swift (Proofs.C05_Back.c05_sw_cfg cfg) (agenerics a) (atype a)))) items ds.
+Proof. exact Proofs.MultiSameSites.c05_multi_sites_sw. Qed.
+Print Assumptions C05_multi_site_swift.
+
+Theorem C05_multi_site_python :
+  forall uc cfg st pd ds st',
+  Proofs.C12Multi.py_multi_decls uc cfg st pd = Ok (ds, st') ->
+  exists items dss, Model.Topsort.topsort (items_of pd) = Ok items /\ ds = List.concat dss /\
+    Forall2 (fun it dl =>
+      (forall s, it = ItStruct s ->
+         Forall (Proofs.C05_Sites.c05_field_ok Python (Proofs.C05_Back.c05_py_cfg cfg) (sgenerics s)) (sfields s) ->
+         exists docs name pbn ms, dl = [PYClass docs name (sgenerics s) pbn ms] /\
+           map pym_type ms = map (Proofs.C05_Sites.py_field_type cfg (sgenerics s)) (sfields s)) /\
+      (forall a, it = ItAlias a ->
+         dom_C05 (atype a) = true -> known_C05 Python (Proofs.C05_Back.c05_py_cfg cfg) (agenerics a) (atype a) = None ->
+         exists docs name, dl = [PYAlias docs name (agenerics a) (c05_erase Python (Proofs.C05_Back.c05_py_cfg cfg) (agenerics a) (atype a))]) /\
+      (forall k, it = ItConst k ->
+         dom_C05 (ctype k) = true -> known_C05 Python (Proofs.C05_Back.c05_py_cfg cfg) [] (ctype k) = None ->
+         exists name v, dl = [PYConst name (c05_erase Python (Proofs.C05_Back.c05_py_cfg cfg) [] (ctype k)) v])) items dss.
+Proof. exact Proofs.MultiSameSites.c05_multi_sites_py. Qed.
+Print Assumptions C05_multi_site_python.
+
+Theorem C05_multi_site_go :
+  forall uc cfg st pd ds st',
+  Proofs.C12MultiGo.go_multi_decls uc cfg st pd = Ok (ds, st') ->
+  exists items dss, Model.Topsort.topsort (items_of pd) = Ok items /\ ds = List.concat dss /\
+    Forall2 (fun it dl =>
+      (forall rs, it = ItStruct rs -> go_uppercase_acronyms cfg = [] ->
+         Forall (Proofs.C05_Sites.c05_field_ok Go (Proofs.C05_Back.c05_go_cfg cfg) (sgenerics rs)) (sfields rs) ->
+         exists docs name ms, dl = [GOStruct docs name (sgenerics rs) ms] /\
+           map (fun mm => go_obs_ty (gm_type mm)) ms = map (fun f => c05_erase Go (Proofs.C05_Back.c05_go_cfg cfg) (sgenerics rs) (fty f)) (sfields rs)) /\
+      (forall a, it = ItAlias a ->
+         dom_C05 (atype a) = true -> known_C05 Go (Proofs.C05_Back.c05_go_cfg cfg) [] (atype a) = None ->
+         exists docs name ty, dl = [GOAlias docs name ty] /\
+           go_obs_ty ty = c05_erase Go (Proofs.C05_Back.c05_go_cfg cfg) (agenerics a) (atype a)) /\
+      (forall k, it = ItConst k ->
+         dom_C05 (ctype k) = true -> known_C05 Go (Proofs.C05_Back.c05_go_cfg cfg) [] (ctype k) = None ->
+         exists name ty v, dl = [GOConst name ty v] /\ go_obs_ty ty = c05_erase Go (Proofs.C05_Back.c05_go_cfg cfg) [] (ctype k))) items dss.
+Proof. exact Proofs.MultiSameSites.c05_multi_sites_go. Qed.
+Print Assumptions C05_multi_site_go.
